@@ -81,6 +81,7 @@ class Tr:
         self.notes = []
         self.loopn = 0
         self.maskvars = {}
+        self.unpack_alias = {}
         import re as _re
         self.defined = set(p for p, _ in spec['params']) | set(_re.findall(r'let (\w+)', spec.get('prelude', '')))
 
@@ -375,6 +376,13 @@ class Tr:
                 return '%slet %s\n%s' % (ind, self.spec['pre_effects'][s], self.block(stmts, k, ind))
             finally:
                 st._pre_done = False
+        ebv = self.spec.get('effects_by_value', {})
+        if isinstance(st, ast.Assign) and len(st.targets) == 1 and isinstance(st.targets[0], ast.Name) \
+                and src(st.value) in ebv:
+            # `<any local> = <oracle call>`: the effect is recorded, the local's name is free
+            eff, alias = ebv[src(st.value)]
+            self.unpack_alias[st.targets[0].id] = alias
+            return '%slet %s\n%s' % (ind, eff, nxt(ind))
         if isinstance(st, (ast.Expr, ast.Assign)) and s in self.effects:
             return '%slet %s\n%s' % (ind, self.effects[s], nxt(ind))
         if isinstance(st, (ast.Assign, ast.AugAssign)):
@@ -418,7 +426,11 @@ class Tr:
             if self.spec.get('ret_override'):
                 return ind + self.spec['ret_override'] + '\n'
             pre = self.with_draws(st.value, ind)
-            val = self.expr(st.value, self.spec.get('ret_want'))
+            rw = self.spec.get('ret_wants')
+            if rw and isinstance(st.value, ast.Tuple) and len(st.value.elts) == len(rw):
+                val = '(' + ', '.join(self.expr(e, w) for e, w in zip(st.value.elts, rw)) + ')'
+            else:
+                val = self.expr(st.value, self.spec.get('ret_want'))
             extra = self.spec.get('ret_extra')
             if extra:
                 val = '(%s, %s)' % (val, extra)
@@ -440,7 +452,7 @@ class Tr:
             if isinstance(t, ast.Subscript):
                 bt = self.ty(t.value)
                 want = bt[5:] if bt and bt.startswith('List ') else None
-            up = self.spec.get('unpack', {}).get(src(st.value))
+            up = self.spec.get('unpack', {}).get(self.unpack_alias.get(src(st.value), src(st.value)))
             if isinstance(t, ast.Tuple) and up and len(t.elts) in up:
                 out = nxt(ind)
                 for te, nm in reversed(list(zip(t.elts, up[len(t.elts)]))):
@@ -703,7 +715,7 @@ KERNELS = [
          bind={'self.beta': 'beta', 'self.proposal_dist.symmetric': 'symmetric',
                'self.proposal_dist.logpdf(current_pos, proposal)': 'rev',
                'self.proposal_dist.logpdf(proposal, current_pos)': 'fwd'},
-         draws={'self.random_generator.uniform()': 'us'},
+         draws={'self.random_generator.uniform()': 'us'}, ret_wants=[None, 'AR'],
          assume_false=['numpy.isnan(ar)'], ret_extra='us'),
     # the same method over IEEE-extended values (vanishing likelihood, nan): what the code does where the
     # rational model has no value (C01, EpsieProps/C01SourceExt.lean)
@@ -716,7 +728,7 @@ KERNELS = [
                'self.proposal_dist.logpdf(current_pos, proposal)': 'rev',
                'self.proposal_dist.logpdf(proposal, current_pos)': 'fwd',
                'numpy.isnan(ar)': 'ARX.isNan ar'},
-         draws={'self.random_generator.uniform()': 'us'}, exp_fn='ARX.ofExp', exp_ty='ARX',
+         draws={'self.random_generator.uniform()': 'us'}, exp_fn='ARX.ofExp', exp_ty='ARX', ret_wants=[None, 'ARX'],
          raise_value='((false, ARX.nan), us)', ret_extra='us'),
     # --- NestedTransdimensional._logpdf (C11): which densities the reported log-density sums
     dict(name='tdLogpdf', file='epsie/proposals/nested_transdimensional.py', cls='NestedTransdimensional',
@@ -771,8 +783,8 @@ KERNELS = [
          fbind={'self._acceptance_ratio': 'ACCEPT'},
          unpack={'r': {3: ['r_logl', 'r_logp', 'r_blob'], 2: ['r_logl', 'r_logp']}},
          assume_false=['self.transdimensional'],
-         effects={'r = self.model(**proposal)': 'calls := calls + 1',
-                  'self.proposal_dist.update(self)': 'updates := updates + 1'},
+         effects={'self.proposal_dist.update(self)': 'updates := updates + 1'},
+         effects_by_value={'self.model(**proposal)': ('calls := calls + 1', 'r')},
          writelogs={'self._positions': ('positionsW', '$i'), 'self._stats': ('statsW', '$i'),
                     'self._acceptance': ('acceptanceW', '$i'), 'self._blobs': ('blobsW', '$i')},
          prelude='let calls : Nat := 0\n  let updates : Nat := 0\n  let positionsW : List (Int × α) := []\n'
@@ -1054,7 +1066,60 @@ def generate():
             status[spec['name']] = msg
         parts.append(text)
     parts.append('end Gen\nend Epsie\n')
+    if os.environ.get('EPSIE_GEN_NO_ISOLATE') != '1':
+        parts, status = isolate(parts, status)
     return '\n'.join(parts), status
+
+
+def _lean_ok(text):
+    """Does this text compile?  None when it cannot be decided (imports not built yet)."""
+    import subprocess
+    import tempfile
+    tmpdir = os.path.join(LEAN_DIR, '.lake')
+    if not os.path.isdir(tmpdir):
+        return None, ''
+    with tempfile.NamedTemporaryFile('w', suffix='.lean', dir=tmpdir, delete=False) as fh:
+        fh.write(text)
+        name = fh.name
+    try:
+        env = dict(os.environ)
+        env.pop('LEAN_PATH', None)
+        p = subprocess.run(['lake', 'env', 'lean', name], cwd=LEAN_DIR, env=env, stdout=subprocess.PIPE,
+                           stderr=subprocess.STDOUT, text=True, timeout=600)
+    except Exception as e:      # noqa: BLE001
+        return None, repr(e)
+    finally:
+        os.unlink(name)
+    if p.returncode == 0:
+        return True, ''
+    if 'object file' in p.stdout or 'unknown module prefix' in p.stdout or 'unknown package' in p.stdout:
+        return None, p.stdout
+    return False, p.stdout
+
+
+def isolate(parts, status):
+    """A kernel whose translation is not well-typed Lean (a shape of the source the translator reads but
+    cannot type) must not take the other kernels down with it: it is replaced by its `_untranslatable`
+    stub, so that only ITS tie theorem breaks."""
+    ok, _ = _lean_ok('\n'.join(parts))
+    if ok is not False:
+        return parts, status
+    head, tail = parts[0], parts[-1]
+    kept = [head]
+    for spec, text in zip(KERNELS, parts[1:-1]):
+        if status.get(spec['name']) != 'ok':
+            kept.append(text)
+            continue
+        good, out = _lean_ok('\n'.join(kept + [text, tail]))
+        if good is False:
+            err = [ln for ln in out.splitlines() if 'error' in ln][:1]
+            msg = 'translation is not well-typed: ' + (err[0].split('error:')[-1].strip()[:200] if err else 'lean rejected it')
+            status[spec['name']] = msg
+            kept.append('/-- NOT TRANSLATED: the translation of this kernel did not type-check. -/\n'
+                        'def %s_untranslatable : String := %s\n' % (spec['name'], json_str(msg)))
+        else:
+            kept.append(text)
+    return kept + [tail], status
 
 
 def main():
